@@ -212,7 +212,7 @@ def check_reply(ctx, rng):
     for L in (None, 0, 1, 10, 100, 4000, 60000):
         for off in (-1, 0, 1, -50, 5000):
             cases.append((L, off))
-    for _ in range(ctx.n(40, 2000)):
+    for _ in range(ctx.n(40, 20000)):
         cases.append((rng.choice([None, 1, 7, 250, 999, 4000, 12345]), rng.choice([-3, -1, 0, 1, 2, rng.randint(-200, 200)])))
 
     async def main(S):
@@ -301,7 +301,7 @@ def run(ctx):
     ctx.exhaustive = False
     ctx.extra['exhaustive_subspace'] = f'all {len(subsets)} subsets of {len(PREFIXES)} prefixes x {len(INT_NAMES)} Interest names x 3 front-ends'
     # random histories with detach / duplicate attach / re-attach
-    for i in range(ctx.n(400, 30000)):
+    for i in range(ctx.n(400, 300000)):
         kind = kinds[i % 3]
         ops = []
         for _ in range(rng.randint(4, 25)):
